@@ -240,7 +240,7 @@ func run(t *testing.T, c hsConfig, f fault) (o outcome) {
 func TestC04(t *testing.T) {
 	env := kit.GetEnv()
 	rep := kit.NewReport("C04", env)
-	rep.Rule = "configurations: ordered identity pairs (incl. self-connection) x universe {same, different, both empty} x secret {same, different, only A, only B, none}; faults on each of the six handshake messages: every bit of every byte (one configuration; the others: header, first/last 16 body bytes and signature), truncation to every length (step 1 for the first 60 bytes, then every 7th), drop, duplicate, replay of the same-position message recorded from a previous complete session of the same pair, reflection to the sender (instead of / in addition to forwarding), under both dispatch orders of simultaneous messages; an active impostor with its own key pair that speaks the full protocol claiming another router's address, over connection sequences (forged key / genuine address, router known or unknown beforehand); outcome on both ends after bubble quiescence; non-trivial = any fault other than none / harmless TTL-flow bits, or a configuration that must be refused; states = distinct (registered-at-A, registered-at-B, rounds) outcomes per (config, fault)"
+	rep.Rule = "configurations: ordered identity pairs (incl. self-connection) x universe {same, different, both empty} x secret {same, different, only A, only B, none}; faults on each of the six handshake messages: every bit of every byte (one configuration; the others: header, first/last 16 body bytes and signature), truncation to every length (step 1 for the first 60 bytes, then every 7th), drop, duplicate, replay of the same-position message recorded from a previous complete session of the same pair, reflection to the sender (instead of / in addition to forwarding), under both dispatch orders of simultaneous messages; an active impostor with its own key pair that speaks the full protocol claiming another router's address, over connection sequences (forged key / genuine address, router known or unknown beforehand); an attacker with its own valid identity but without the universe secret that copies the victim's challenge and lifts the victim's universe proof; a three-party relay in which the attacker peers with the real P under its own identity using the victim's challenge and passes P's signed messages on to the victim; outcome on both ends after bubble quiescence; non-trivial = any fault other than none / harmless TTL-flow bits, or a configuration that must be refused; states = distinct (registered-at-A, registered-at-B, rounds) outcomes per (config, fault)"
 	rep.Assumptions = []string{
 		"both ends run the real handleSetup; the adversary only controls the byte stream (it holds no private key)",
 		"blocked-forever handshakes are legal outcomes ('no link'), observed through bubble quiescence, never through a timeout",
@@ -412,6 +412,12 @@ func TestC04(t *testing.T) {
 		}
 	}
 	impostorScenarios(t, rep, env, &evals, &nontrivial)
+	if env.Mine(3) {
+		secretReflection(t, rep, &evals, &nontrivial)
+	}
+	if env.Mine(5) {
+		proofRelay(t, rep, &evals, &nontrivial)
+	}
 
 	rep.Add(evals, nontrivial, int64(len(states)), transitions)
 	if err := rep.Finish(env); err != nil {
